@@ -9,6 +9,7 @@ import (
 	"sort"
 	"strconv"
 	"strings"
+	"sync"
 	"time"
 )
 
@@ -204,10 +205,26 @@ func runProperty(e *Engine, prop, tier, propsFile, evidence, replays, knownFile 
 			undecided = append(undecided, key+": "+firstLine(res.Error))
 			continue
 		}
-		obls := filterObls(res.Obls, prop)
-		solveAll(res.Ctx, obls, dir, timeout, 16, stats)
-		all = append(all, obls...)
 	}
+	genSecs := time.Since(t0).Seconds()
+	// phase 2: solve the obligations of all functions concurrently
+	{
+		var wg sync.WaitGroup
+		for _, res := range results {
+			if res.Error != "" {
+				continue
+			}
+			obls := filterObls(res.Obls, prop)
+			all = append(all, obls...)
+			wg.Add(1)
+			go func(res *FuncResult, obls []*Obligation) {
+				defer wg.Done()
+				solveAll(res.Ctx, obls, dir, timeout, 16, stats)
+			}(res, obls)
+		}
+		wg.Wait()
+	}
+	_ = genSecs
 	// classify
 	var failed, vacuity []*Obligation
 	discharged, total, guards, guardsOK := 0, 0, 0, 0
